@@ -107,14 +107,17 @@ def stage(d, fx, tier, dev=(), props=PROPS, invs=INVS, menu=None):
     return name, m
 
 
-def run(fx, tier, dev=(), props=PROPS, invs=INVS, workers=16, timeout=1500, menu=None, heap="16g"):
+def run(fx, tier, dev=(), props=PROPS, invs=INVS, workers=16, timeout=1500, menu=None, heap="16g", budget=None):
+    """budget (seconds): TLC stops the breadth-first search itself after that time; the result is then `ok` with
+    complete=False if no violation was found in what it covered"""
     d = tlc.scratch("mc-" + fx["name"])
     name, m = stage(d, fx, tier, dev, props, invs, menu)
-    rc, out, secs = tlc.run_tlc(d, name, name + ".cfg", workers=workers, timeout=timeout, heap=heap)
+    rc, out, secs = tlc.run_tlc(d, name, name + ".cfg", workers=workers, timeout=timeout if not budget else budget + 600, heap=heap, stop_after=budget)
     with open(os.path.join(d, "tlc.out"), "w") as f:
         f.write(out)
     st = tlc.parse_stats(out)
     violated = re.findall(r"(?:Invariant|Action property|Temporal properties|property) (\w+) (?:is|was) violated", out)
     violated += re.findall(r"Action property (\w+) is violated", out)
     ok = "No error has been found" in out
-    return dict(dir=d, module=name, rc=rc, ok=ok, violated=sorted(set(violated)), stats=st, secs=secs, out=out, menu=m)
+    complete = ok and st.get("left_on_queue", 0) == 0      # (with a time budget TLC may end with states still queued)
+    return dict(dir=d, module=name, rc=rc, ok=ok, complete=complete, violated=sorted(set(violated)), stats=st, secs=secs, out=out, menu=m)
